@@ -222,6 +222,31 @@ def _only_shortcut_lines_differ(a, b, limit):
         return False
 
 
+def _only_importance_separator_differs(a, b):
+    """the two texts have the same words on every line, and wherever the runs of blanks between two words differ in
+    length the word in front of the run is a cell-block importance entry (imp:n=2): the blank that
+    Importance._update_values once gave an entry that was not the last one at that time (finding C19-F2)"""
+    import re
+
+    la, lb = a.split("\n"), b.split("\n")
+    if len(la) != len(lb):
+        return False
+    hit = False
+    for x, y in zip(la, lb):
+        if x == y:
+            continue
+        px, py = re.findall(r"\S+| +", x.rstrip(" ")), re.findall(r"\S+| +", y.rstrip(" "))
+        if len(px) != len(py):
+            return False
+        for k, (u, v) in enumerate(zip(px, py)):
+            if u == v:
+                continue
+            if u.strip(" ") or v.strip(" ") or k == 0 or not px[k - 1].lower().startswith("imp:"):
+                return False
+            hit = True
+    return hit
+
+
 def judge(case, r):
     out = []
     if "skip" in r:
@@ -237,6 +262,8 @@ def judge(case, r):
                 # shortcut it does not come back; every differing line holds a shortcut in one of the two files and
                 # both files denote the same problem.  Anything else keeps the plain signature.
                 sig["cause"] = "shortcut-recompression-history"
+            elif name == "observation-changes-output" and sig["how"] == "spacing" and _only_importance_separator_differs(a, b):
+                sig["cause"] = "importance-separator-blank-latched"
             out.append((sig, f"{name}: line {i}: {x!r} vs {y!r}"))
 
     if "again" in r:
